@@ -291,6 +291,12 @@ func (m *Monitors) adapterCall(ctx context.Context, proc, label string) {
 		}
 		m.violate("C11", "lease-on-every-call", "adapter-call-outside-lease:"+strings.SplitN(label, "(", 2)[0],
 			fmt.Sprintf("process %s called %s with lease %s instead of its current lease", m.opTok, label, got))
+		if strings.HasPrefix(m.opTok, "sch") && label != "" && strings.HasPrefix(label, "store") {
+			// C20: "at most one run per tick" rests on there being one scheduler per foreign ID and spec - the holder of the
+			// scheduler role. A scheduler that creates a run without holding it does so alongside the instance that does.
+			m.violate("C20", "one-run-per-tick", "run-created-without-the-scheduler-role",
+				fmt.Sprintf("the scheduler %s created a run (%s) under lease %s, not its current role lease: whichever instance holds the role triggers for the same tick", m.opTok, label, got))
+		}
 	}
 	// C07 lag: the handler's first store access for a delivery must not happen before the event has aged by the lag
 	// (checked also when the context is already cancelled: the handler was started all the same)
